@@ -55,6 +55,14 @@ add("C19", "exploration", "LoaderPolicy.tla states the evaluation policy (entry 
     "(loader functions, DAG store, client status calls, daemon initDags; Load as vacuity control) and TLC judges every record (no command ran, os.Environ unchanged)",
     "only the canary file and the process environment are observed; the policy table is a hand-written abstraction of builder.go", "TLA+ policy table (TLC) + exhaustive canary sweep of the real entry points judged by TLC", "loader", "5/C19")
 
+API_NOTE = "trusted: TLC, the rig that reads the abstract state back from disk with fresh store instances, the argv-recording stub; handlers are called directly (no HTTP routing)"
+add("C20", "model_checking", "ApiControl.tla gives every API action a response class and an effect on <<definitions, histories, flags, live runs>>; the C20 guarantees are written over observed <<pre, action, response, post, spawned, stops>> tuples; "
+    "TLC checks them on every transition of the model (MCApi) and on every action the real go-swagger handlers execute in TLC-generated and seeded random action sequences with DAGs in every state (never run / running / finished / failed / canceled / crashed), "
+    "and compares the real outcome with the model's Step (drift)", API_NOTE, "TLA+ model of the API control surface (TLC) + trace validation of the real handlers over model-generated and random action sequences", "api", "5/C20")
+add("C18", "model_checking", "same rig and model as C20 with the C18 guarantees (create/rename never overwrite, invalid save changes nothing, rename carries definition + history, delete removes only its own DAG, other DAGs untouched); "
+    "plus DagStore.tla (save at system-call grain, crash anywhere, all-or-nothing invariant) and a ptrace kill sweep of the real UpdateSpec at every system call and torn write", API_NOTE + "; ptrace supervisor for the save sweep",
+    "TLA+ models (TLC) + trace validation of the real handlers + ptrace kill-point enumeration of a save, all judged by TLC", "api", "5/C18")
+
 ALL = ["C%02d" % i for i in range(1, 21)]
 for p in ALL:
     if p not in CHECKS:
@@ -87,6 +95,8 @@ def main():
              "kind_free_text": "tick driver around the real scheduler daemon with a recording fake client; records judged by TLC"},
             {"name": "loader", "path": "harness/rig/loader.go + spec/LoaderObserve.tla + spec/LoaderPolicy.tla", "serves_properties": ["C13", "C19"],
              "kind_free_text": "mutation and canary sweeps of the real loader entry points; records judged by TLC"},
+            {"name": "api", "path": "harness/rig/api.go + spec/ApiControl.tla + spec/MCApi.tla + spec/ApiObserve.tla + spec/DagStore.tla + spec/SaveCrashObserve.tla", "serves_properties": ["C18", "C20"],
+             "kind_free_text": "action-sequence driver around the real API handlers, client and stores with live status sockets and an argv stub; trace validation by TLC"},
             {"name": "admit", "path": "harness/rig/admit.go + spec/Admission.tla + spec/AdmissionObserve.tla", "serves_properties": ["C14"],
              "kind_free_text": "graph enumerator around scheduler.NewExecutionGraph / agent.Run; records judged by TLC"},
         ],
